@@ -33,17 +33,29 @@ func TestMain(m *testing.M) {
 	ev.MustHit("nontrivial", "unsub-during-blocked-send", "subscribe-during-send", "two-concurrent-senders", "scope-close-during-send",
 		"scope-close-during-blocked-send", "unsub-before-any-send", "buffered-values-held-at-unsub",
 		"subscribe-during-send:got-value", "subscribe-during-send:missed-value",
-		"sub:unbuffered", "sub:buffered", "sub:slow", "selftest:broken-feeds-flagged", "selftest:reference-feed-clean")
+		"sub:unbuffered", "sub:buffered", "sub:slow", "selftest:broken-feeds-flagged", "selftest:reference-feed-clean",
+		// SubscriptionScope: Close called by several goroutines at once, a Send begun after Close had returned to
+		// one caller (and: while the Close of another caller had not returned yet), Track on a closed scope
+		"scope:concurrent-close", "scope:send-after-close-returned", "scope:closer-sends-after-its-close",
+		"scope:send-between-returns-of-concurrent-closes", "scope:track-after-close", "scope:several-scopes-closed",
+		"sub:tracked-with-slow-unsubscribe", "selftest:broken-scope-flagged", "selftest:reference-scope-clean")
 	ev.Main(m, ev.Config{
 		Property: "C19",
 		Level:    "exploration",
 		Rule: "a case is a generated concurrent program (1-4 senders x 1-30 uniquely numbered values; 1-6 subscribers, unbuffered or buffered 1-8, fast or slow, " +
 			"subscribed before the senders start or after a generated number of sends has begun, behaviour never/self-unsubscribe(optionally once a send is blocked on it)/" +
-			"unsubscribed by another goroutine/scope-tracked (drain, stop-and-wait-for-Close, self-unsubscribe); a scope closer; a yield plan for the verif hooks; GOMAXPROCS in {1,2,4,16}) " +
-			"executed on real goroutines `runs` times (extra counter `runs`) against a fresh event.Feed, the plan rotated by the run index; each recorded history is judged by invariants (1)-(6), " +
+			"unsubscribed by another goroutine/scope-tracked (drain, stop-and-wait-for-Close, self-unsubscribe); 1-3 SubscriptionScopes over the one feed, every scoped subscriber is Tracked by one of them " +
+			"(directly, or through a Subscription wrapper whose Unsubscribe yields 1-6 times first), possibly after that scope was closed (Track returns nil: it stays a plain subscriber); " +
+			"per scope in use 1-3 (TestScopePrograms: 2-4) closer goroutines that call Close once a generated number of sends has begun - mostly the same number, so that the Close calls of one scope run concurrently - " +
+			"optionally call Count before/after, and mostly Send one more value (9000+i) as soon as their own Close has returned; a yield plan for the verif hooks; GOMAXPROCS in {1,2,4,16}) " +
+			"executed on real goroutines `runs` times (extra counter `runs`) against a fresh event.Feed and fresh event.SubscriptionScopes, the plan rotated by the run index; each recorded history is judged by invariants (1)-(6), " +
+			"where a Close call counts as an Unsubscribe call on every subscription the scope tracks and the EARLIEST return of Close to any caller as the return of those Unsubscribe calls (5); " +
+			"TestFeedPrograms and TestScopePrograms draw from the same grammar with different weights, TestCorpus/TestScopeCorpus run hand-written programs; " +
 			"the binary is built with -race (7). evaluations counts programs, not runs. non-trivial = at least one run in which an Unsubscribe/Close call interval overlapped a Send interval in the log; " +
 			"(observed, hence schedule-dependent: the count can differ by a few between two runs with the same seed; the generated programs are identical); distinct by hash of the program's JSON. Labels are per program (class reached in at least one run); runs:<class> counters are per run.",
 		Assumptions: []string{
+			"scope Close is an unsubscription of everything the scope tracks for every caller it returns to: also a caller that finds the scope already being closed by another goroutine may rely on 'nothing tracked receives any more' once its Close has returned (the property's 'delivers after unsubscription has returned' with 'scope Close' in its quantifier)",
+			"SubscriptionScope.Count is called but its value is not judged (the statement says nothing about it); it is there for the race detector",
 			"the Go scheduler is not controllable from a library: schedules are sampled (yield hooks, GOMAXPROCS, repeated runs), not enumerated",
 			"logged sequence numbers order only non-overlapping operations; for overlapping Subscribe/Unsubscribe/Send both outcomes are accepted",
 			"deadlock = no goroutine of the program logged an event for 10 s while the program had not finished (programs terminate by construction on a correct feed: every subscriber keeps receiving until all senders are done or unsubscribes)",
@@ -55,7 +67,10 @@ func TestMain(m *testing.M) {
 
 // ---------- generator ----------
 
-func genProgram(t *rapid.T) *Program {
+// genProgram draws a program. scopeFocus shifts the weights towards the scope
+// part of the API (more tracked subscribers, more closers per scope); the
+// domain is the same.
+func genProgram(t *rapid.T, scopeFocus bool) *Program {
 	p := &Program{}
 	p.Procs = rapid.SampledFrom([]int{1, 2, 4, 16}).Draw(t, "gomaxprocs")
 	ns := rapid.IntRange(1, 4).Draw(t, "senders")
@@ -69,8 +84,19 @@ func genProgram(t *rapid.T) *Program {
 	total := p.TotalSends()
 	nr := rapid.IntRange(1, 6).Draw(t, "subs")
 	modes := []string{ModeNever, ModeNever, ModeSelf, ModeSelf, ModeSelf, ModeExt, ModeExt, ModeScope, ModeScopeStop, ModeScopeSelf}
+	if scopeFocus {
+		nr = rapid.IntRange(2, 8).Draw(t, "moreSubs")
+		modes = []string{ModeNever, ModeSelf, ModeExt, ModeScope, ModeScope, ModeScope, ModeScope, ModeScopeStop, ModeScopeSelf, ModeScopeSelf}
+	}
+	p.Scopes = rapid.SampledFrom([]int{1, 1, 1, 2, 2, 3}).Draw(t, "scopes")
 	for k := 0; k < nr; k++ {
 		s := Sub{Mode: rapid.SampledFrom(modes).Draw(t, "mode")}
+		if scoped(s.Mode) {
+			s.Scope = rapid.IntRange(0, p.Scopes-1).Draw(t, "scope")
+			if rapid.Bool().Draw(t, "lazyUnsub") {
+				s.UnsubYields = rapid.IntRange(1, 6).Draw(t, "unsubYields")
+			}
+		}
 		if rapid.IntRange(0, 2).Draw(t, "buffered") > 0 {
 			s.Buf = rapid.IntRange(1, 8).Draw(t, "buf")
 		}
@@ -98,8 +124,32 @@ func genProgram(t *rapid.T) *Program {
 		}
 		p.Subs = append(p.Subs, s)
 	}
-	if p.HasScope() {
-		p.CloseAt = rapid.IntRange(0, total).Draw(t, "closeAt")
+	// closers: every scope that tracks somebody gets 1-3 (focus: 2-4) of them;
+	// most closers of one scope share the trigger, so that their Close calls
+	// run concurrently; most send a value as soon as their Close has returned
+	for sc := 0; sc < p.Scopes; sc++ {
+		used := false
+		for _, s := range p.Subs {
+			used = used || (scoped(s.Mode) && s.Scope == sc)
+		}
+		if !used {
+			continue
+		}
+		nc := rapid.SampledFrom([]int{1, 2, 2, 3}).Draw(t, "closers")
+		if scopeFocus {
+			nc = rapid.IntRange(2, 4).Draw(t, "moreClosers")
+		}
+		at := rapid.IntRange(0, total).Draw(t, "closeAt")
+		for i := 0; i < nc; i++ {
+			c := Closer{Scope: sc, At: at}
+			if i > 0 && rapid.IntRange(0, 3).Draw(t, "ownTrigger") == 0 {
+				c.At = rapid.IntRange(0, total).Draw(t, "closeAtOwn")
+			}
+			c.Yields = rapid.IntRange(0, 3).Draw(t, "closerYields")
+			c.Probe = rapid.IntRange(0, 2).Draw(t, "probe") > 0
+			c.Count = rapid.Bool().Draw(t, "count")
+			p.Closers = append(p.Closers, c)
+		}
 	}
 	if rapid.IntRange(0, 4).Draw(t, "hasPlan") > 0 {
 		n := rapid.IntRange(1, 24).Draw(t, "planLen")
@@ -141,7 +191,7 @@ var execMu sync.Mutex // the yield plan and GOMAXPROCS are process-global
 
 // runProgram executes p `runs` times. It returns the first failing run (nil if
 // none) and, per class, the number of runs that reached it.
-func runProgram(p *Program, runs int, mk func() FeedAPI) (*CaseFile, map[string]int) {
+func runProgram(p *Program, runs int, w World) (*CaseFile, map[string]int) {
 	execMu.Lock()
 	defer execMu.Unlock()
 	prev := runtime.GOMAXPROCS(p.Procs)
@@ -151,7 +201,7 @@ func runProgram(p *Program, runs int, mk func() FeedAPI) (*CaseFile, map[string]
 	for run := 0; run < runs; run++ {
 		plan := rotate(p.Plan, run)
 		event.VerifSetYieldPlan(plan)
-		res := Execute(p, mk())
+		res := Execute(p, w)
 		bad := Judge(len(p.Subs), res.History, res.Complete())
 		if res.Deadlock {
 			bad = append([]string{fmt.Sprintf("(6) deadlock: no goroutine made progress for %v and the program did not finish", watchdog)}, bad...)
@@ -170,7 +220,11 @@ func runProgram(p *Program, runs int, mk func() FeedAPI) (*CaseFile, map[string]
 	return nil, classes
 }
 
-func realFeed() FeedAPI { return new(event.Feed) }
+// realWorld is the code under test.
+var realWorld = World{
+	Feed:  func() FeedAPI { return new(event.Feed) },
+	Scope: func() ScopeAPI { return new(event.SubscriptionScope) },
+}
 
 func render(cf *CaseFile) string {
 	// the verdict goes last: the driver shows the tail of the log
@@ -213,6 +267,20 @@ func programLabels(p *Program, classes map[string]int) []string {
 		if s.Blocked {
 			seen["sub:waits-for-blocked-send"] = true
 		}
+		if s.UnsubYields > 0 {
+			seen["sub:tracked-with-slow-unsubscribe"] = true
+		}
+	}
+	if cl := p.AllClosers(); len(cl) > 0 {
+		l = append(l, fmt.Sprintf("closers:%d", len(cl)))
+		per := map[int]int{}
+		for _, c := range cl {
+			per[c.Scope]++
+			if per[c.Scope] > 1 {
+				seen["scope:several-closers"] = true
+			}
+		}
+		l = append(l, fmt.Sprintf("scopes-in-use:%d", len(per)))
 	}
 	if len(p.Plan) == 0 {
 		seen["plan:none"] = true
@@ -231,7 +299,7 @@ func programLabels(p *Program, classes map[string]int) []string {
 // and the replay.
 func checkProgram(t failer, name string, p *Program, runs int) {
 	inflight := ev.SaveCase("inflight", &CaseFile{Program: p})
-	cf, classes := runProgram(p, runs, realFeed)
+	cf, classes := runProgram(p, runs, realWorld)
 	ev.Case(classes["unsub-overlaps-send"] > 0, p.JSON(), programLabels(p, classes)...)
 	ev.Add("runs", int64(runs))
 	for c, n := range classes {
@@ -254,14 +322,31 @@ func TestFeedPrograms(t *testing.T) {
 		flag.Set("rapid.shrinktime", "10s")
 	}
 	ev.Check(t, ev.N(quickPrograms, thoroughPrograms), func(t *rapid.T) {
-		p := genProgram(t)
+		p := genProgram(t, false)
 		checkProgram(t, "TestFeedPrograms", p, p.Runs)
+	})
+}
+
+// TestScopePrograms: the same property over programs drawn with the weights
+// shifted to SubscriptionScope (Track / concurrent Close / Count, a Send right
+// after a Close returned).
+func TestScopePrograms(t *testing.T) {
+	if os.Getenv("VERIF_SHRINKTIME") == "" {
+		flag.Set("rapid.shrinktime", "10s")
+	}
+	ev.Check(t, ev.N(quickScopePrograms, thoroughScopePrograms), func(t *rapid.T) {
+		p := genProgram(t, true)
+		ev.Label("scope-focus")
+		checkProgram(t, "TestScopePrograms", p, p.Runs)
 	})
 }
 
 const (
 	quickPrograms    = 400
 	thoroughPrograms = 8000
+
+	quickScopePrograms    = 200
+	thoroughScopePrograms = 4000
 )
 
 // ---------- corpus of hand-written hostile programs ----------
